@@ -316,6 +316,40 @@ def handle (toks : List String) : Option String :=
       let total ← nat
       let ps := plan { nparts := np, minSize := mn, maxSize := mx, retries := 0 } total
       pure (joinWith " " (toString ps.length :: ps.map fun p => s!"{p.off}/{p.size}"))) rest
+  | "resumereq" :: rest =>
+    -- what a resumed download does with these records against an honest CDN:
+    -- b.Parts order (Glob), b.Total, and the Range of every part that is not complete (by N)
+    runTP (do
+      let ps ← listOf pPart
+      let g := globParts ps
+      let order := g.map fun (i, _) => toString i
+      let total := (g.map (·.2.size)).sum
+      let reqs := (indexFrom 0 ps).filterMap fun (i, p) =>
+        if p.done = p.size then none else some s!"{i}:{p.off + p.done}-{p.off + p.size - 1}"
+      pure s!"order={joinWith "," order} total={total} req={joinWith ";" reqs}") rest
+  | "bigstate" :: rest =>
+    -- records left by a fresh attempt on a <total>-byte blob whose part N ends as: ok (complete),
+    -- fail (nothing recorded), half k (k bytes recorded)
+    runTP (do
+      let np ← nat
+      let mn ← nat
+      let mx ← nat
+      let total ← nat
+      let modes ← listOf (do
+        let t ← tok
+        match t with
+        | "ok" => pure (some none)
+        | "fail" => pure none
+        | "half" => do let k ← nat; pure (some (some k))
+        | _ => failure : TP (Option (Option Nat)))
+      let ps := plan { nparts := np, minSize := mn, maxSize := mx, retries := 0 } total
+      let recs := (ps.zip modes).map fun (p, m) =>
+        let done := match m with
+          | none => 0
+          | some none => p.size
+          | some (some k) => k
+        s!"{p.off}/{p.size}/{done}"
+      pure s!"{ps.length} {joinWith "," recs}") rest
   | "sha256" :: rest =>
     runTP (do
       let b ← hex
